@@ -38,6 +38,9 @@ CORPORA = {
     "cks": dict(model="MC_Header", cfg="MC_Cks", quick={}, thorough={}, profiles=DEV_REL, place="end"),
     "ctor": dict(model="MC_Build", cfg="MC_Ctor", quick=dict(MaxContent=17, BigPalettes="{257, 21847, 21848, 65537, 65538}"), thorough=dict(MaxContent=40, BigPalettes="{257, 21847, 21848, 21849, 65537, 65538}"), profiles=DEV_REL, place="end"),
     "ctorsized": dict(model="MC_Build", cfg="MC_CtorSized", quick=dict(MaxContent=1), thorough=dict(MaxContent=1), profiles=ALL_CFGS, place="end"),
+    # very many small tags, calls on a 256 KiB stack (4096: between the dev and release depths of a recursive skip; 70000: beyond 2^16)
+    "tile": dict(model="MC_Tile", quick=dict(TileNs="{1, 2000, 4096, 70000}", TileStack=262144), thorough=dict(TileNs="{1, 2000, 4096, 70000, 400000}", TileStack=262144),
+                 profiles=DEV_REL, place="end"),
     "boxed": dict(model="MC_Build", cfg="MC_Boxed", quick=dict(MaxTotal=8), thorough=dict(MaxTotal=17), profiles=DEV_REL, place="end"),
     "builder": dict(model="MC_Build", cfg="MC_Builder", quick=dict(MaxSeq=2), thorough=dict(MaxSeq=3), profiles=DEV_REL, place="end"),
     "hbuilder": dict(model="MC_Build", cfg="MC_HBuilder", quick=dict(MaxSeq=3, BigRequests="{2039, 2040, 2041}"), thorough=dict(MaxSeq=4, BigRequests="{2039, 2040, 2041, 4096, 16384}"), profiles=DEV_REL, place="end"),
@@ -75,7 +78,7 @@ CORPORA = {
 
 # property -> list of corpus names; nontrivial rule used for evidence
 PARSE_CORPORA = ["adv", "big", "load", "walk", "fields", "getters", "dst", "sized", "fb", "rsdp", "efi", "elf", "str",
-                 "hload", "hwalk", "hfields", "hgetters", "hdst", "find", "findbytes", "cks", "refslice8", "typeids", "ctorsized"]
+                 "hload", "hwalk", "hfields", "hgetters", "hdst", "find", "findbytes", "cks", "refslice8", "typeids", "ctorsized", "tile"]
 
 CHECKS = {
     "C08": dict(technique="TLC-generated cases replayed by four builds (dev/release x builder feature on/off); TLC (spec/Trace8.tla) compares every "
@@ -131,10 +134,10 @@ CHECKS = {
     "C18": dict(thorough_extra=["mut"], corpora=["efi"],
                 rule="all (descriptor size 0..MaxD, version 0..2, map length 0..min(3d+9, LCap)); each with the environment plan "
                      "create / len / size_hint / next past the naive count / clone / Debug"),
-    "C19": dict(thorough_extra=["mut"], corpora=["elf"],
+    "C19": dict(thorough_extra=["mut"], corpora=["elf", "tile"],
                 rule="all (count 0..MaxN, entry size in ElfSizes, string-table index 0..n+1, section bytes in {0, n*es-1, n*es, n*es+8}, "
                      "raw-type rotation); names resolved through a string table mapped at a fixed external address"),
-    "C01": dict(corpora=["fields", "getters", "dst", "sized", "custom", "fb", "rsdp", "adv", "efi", "elf", "walk", "load", "mut", "perm", "xcast", "repo"],
+    "C01": dict(corpora=["fields", "getters", "dst", "sized", "custom", "fb", "rsdp", "adv", "efi", "elf", "walk", "load", "mut", "perm", "xcast", "repo", "tile"],
                 rule="union of the boot-information corpora (every kind, every declared size, all framebuffer type bytes, "
                      "all walks); every call of every session is checked for crash/hang and for extents inside the owning tag"),
     "C04": dict(thorough_extra=["mut", "session"], corpora=["fields", "getters", "fb", "rsdp", "elf", "repo"],
@@ -148,7 +151,7 @@ CHECKS = {
                 rule="cases = all (total size, reserved word, last-8-bytes type/size) in bounds + null pointer; "
                      "non-trivial = every case (each has a distinct specified outcome class or size); structural regions with total sizes "
                      "around every power of two from 128 bytes to 1 MiB (2 MiB thorough), end tag right / wrong"),
-    "C03": dict(thorough_extra=["mut"], corpora=["walk", "proto", "load"],
+    "C03": dict(thorough_extra=["mut"], corpora=["walk", "proto", "load", "tile"],
                 # unbounded (regions and sizes up to 2^32): the cursor machine's inductive invariant, base case and induction step
                 laws=[("APA_Iter", "Init", "IndInv", 1), ("APA_Iter", "IndInit", "IndInv", 1)],
                 rule="cases = all lazily chosen header sequences (type in {0,3,99}, size 0..remaining+9) of regions up to MaxT; "
